@@ -4,7 +4,7 @@
 //! harness gen --seed <u64> --cases <n> --maxlen <n> --kind <hashmap|lru|pool|all> --profile <name>
 //!             --ops <file> --out <file> --stats <file.json> [--avoid sdrop-order]
 //! harness sgen --seed <u64> --cases <n> --kind <hashmap|lru|pool|all> --threads <0|1..16> --stmts <n>
-//!              [--profile mixed|limit|pool] --ops <file> --out <file> --stats <file.json>
+//!              [--profile mixed|limit|pool|cancel] --ops <file> --out <file> --stats <file.json>
 //! harness sdfs --kind <hashmap|lru|pool> --programs "<prog0> | <prog1> ..." --max-schedules <n>
 //!              --ops <file> --out <file> --stats <file.json>
 //! harness sdfs-gen --seed <u64> --count <n> --kind <hashmap|lru|pool|all> --max-schedules <n>
@@ -27,7 +27,7 @@ fn usage() -> ExitCode {
     eprintln!(
         "usage:\n  harness replay [--ops <file>] [--out <file>] [--rewrite <file>]    (default: stdin / stdout)\n  harness gen --seed <u64> --cases <n> --maxlen <n> --kind <hashmap|lru|pool|all> \
          --profile <mixed|cancel|limit|expire|stream|pool> --ops <file> --out <file> --stats <file.json> [--avoid sdrop-order]\n  \
-         harness sgen --seed <u64> --cases <n> --kind <hashmap|lru|pool|all> --threads <0|1..16> --stmts <n> [--profile mixed|limit|pool] \
+         harness sgen --seed <u64> --cases <n> --kind <hashmap|lru|pool|all> --threads <0|1..16> --stmts <n> [--profile mixed|limit|pool|cancel] \
          --ops <file> --out <file> --stats <file.json>\n  \
          harness sdfs --kind <hashmap|lru|pool> --programs \"<prog0> | <prog1> ...\" --max-schedules <n> --ops <file> --out <file> --stats <file.json>\n  \
          harness sdfs-gen --seed <u64> --count <n> --kind <hashmap|lru|pool|all> --max-schedules <n> --ops <file> --out <file> --stats <file.json>"
@@ -176,9 +176,11 @@ fn sgen(flags: &HashMap<String, String>) -> Result<(), String> {
     let stmts = flag_num(flags, "stmts")?;
     let (kind_s, kind) = flag_kind(flags)?;
     let profile = flags.get("profile").cloned().unwrap_or_else(|| "mixed".to_string());
-    let soft_pct = match profile.as_str() {
-        "mixed" | "pool" => 25,
-        "limit" => 60,
+    // (soft limit, hand-polled acquisition) percentages of the lock statements
+    let (soft_pct, alock_pct) = match profile.as_str() {
+        "mixed" | "pool" => (25, 15),
+        "limit" => (60, 0),
+        "cancel" => (15, 55),
         p => return Err(format!("--profile: unknown profile {p}")),
     };
     let mut ops = open_out(flags, "ops")?;
@@ -200,6 +202,7 @@ fn sgen(flags: &HashMap<String, String>) -> Result<(), String> {
                 max_stmts: stmts,
                 max_locks: u64::MAX,
                 soft_pct,
+                alock_pct,
             };
             let progs: Vec<_> = (0..n).map(|_| sgen::gen_program(&mut rng, &cfg)).collect();
             writeln!(run.ops, "# case {i} kind={} threads={n} keys={}", k.name(), cfg.nkeys).map_err(|e| e.to_string())?;
@@ -266,12 +269,15 @@ fn sdfs_gen(flags: &HashMap<String, String>) -> Result<(), String> {
         let mut run = sgen::SRun::new(&mut ops, &mut out);
         for i in 0..count {
             let k = kind.unwrap_or(KINDS[(i % 3) as usize]);
+            // about 30% of the program sets contain hand-polled acquisitions (a little longer, to have room for polls)
+            let with_alock = rng.pct(30);
             let cfg = sgen::ProgCfg {
                 kind: k,
                 nkeys: 2,
-                max_stmts: 5,
+                max_stmts: if with_alock { 6 } else { 5 },
                 max_locks: 2,
                 soft_pct: 30,
+                alock_pct: if with_alock { 50 } else { 0 },
             };
             let progs: Vec<_> = (0..2).map(|_| sgen::gen_program(&mut rng, &cfg)).collect();
             writeln!(
